@@ -608,3 +608,16 @@ Definition inactive_sels (cv : list (str * value)) (l : list selection) : bool :
 
 Definition inactive_doc (cv : list (str * value)) (d : document) : bool :=
   inactive_sels cv (d_sels d) && forallb (fun fr => inactive_sels cv (fr_sels fr)) (d_frags d).
+
+(* documents without any @defer directive *)
+Definition no_defer (ds : list directive) : bool := forallb (fun d => negb (str_eqb (fst d) n_defer)) ds.
+
+Fixpoint defer_free_sel (x : selection) : bool :=
+  match x with
+  | SField _ _ _ _ sub => forallb defer_free_sel sub
+  | SSpread _ dirs => no_defer dirs
+  | SInline _ dirs sub => no_defer dirs && forallb defer_free_sel sub
+  end.
+
+Definition defer_free (d : document) : bool :=
+  forallb defer_free_sel (d_sels d) && forallb (fun fr => forallb defer_free_sel (fr_sels fr)) (d_frags d).
